@@ -976,8 +976,12 @@ class Tensor:
     def cumprod(self, dim):
         raise Unsupported('cumprod')
 
-    def diff(self, n=1, dim=-1):
-        assert n == 1
+    def diff(self, n=1, dim=-1, prepend=None, append=None):
+        if n != 1:
+            raise Unsupported('diff with n != 1')
+        if prepend is not None or append is not None:
+            parts = ([prepend] if prepend is not None else []) + [self] + ([append] if append is not None else [])
+            return cat(parts, dim=dim).diff(dim=dim)
         d = self._dim(dim)
         sh = self._shape
         rd = self.reader()
@@ -1668,6 +1672,9 @@ def _infer(data):
 
 
 def tensor(data, dtype=None, device=None, requires_grad=False):
+    if hasattr(data, '_as_tensor'):
+        r = data._as_tensor()
+        return r.to(dtype) if dtype else r
     if isinstance(data, Tensor):
         r = data.detach().clone()
         return r.to(dtype) if dtype else r
